@@ -16,6 +16,38 @@ EKINDS = {"ValueError": "EValue", "IndexError": "EIndex", "NotFittedError": "ENo
 BAD_DATA = ["nan_x", "inf_y", "rows", "x1d", "y1d_multi"]
 
 
+X_PRESENT = ["float64", "int64", "int32", "bool", "float32", "list", "fortran"]
+FLAG_PRESENT = ["bool", "int", "npbool"]
+
+
+def values_for(X, kind):
+    """Values (as float64) that the presentation `kind` can carry exactly."""
+    X = np.asarray(X, dtype=float)
+    if kind in ("int64", "int32"):
+        return np.rint(2.0 * X)
+    if kind == "bool":
+        return (X > 0).astype(float)
+    if kind == "float32":
+        return X.astype(np.float32).astype(float)
+    return X
+
+
+def present(vals, kind):
+    """The SAME values handed to the implementation as another dtype / container / memory order."""
+    A = np.array(vals, dtype=float)
+    if kind in ("int64", "int32", "bool", "float32"):
+        return A.astype({"int64": np.int64, "int32": np.int32, "bool": bool, "float32": np.float32}[kind])
+    if kind == "list":
+        return A.tolist()
+    if kind == "fortran":
+        return np.asfortranarray(A)
+    return A
+
+
+def present_flag(b, kind):
+    return {"bool": bool(b), "int": int(bool(b)), "npbool": np.bool_(bool(b))}[kind or "bool"]
+
+
 def _n(rng):
     return rng.gauss(0.0, 1.0)
 
@@ -40,9 +72,12 @@ def _shape(rng, pmax):
     return t + rng.randint(1, 3), t
 
 
-def _dataset(rng, p, t, nmax):
-    n = rng.randint(max(p, t) + 2, max(p, t) + 2 + nmax)
+def _dataset(rng, p, t, nmax, n=None):
+    if n is None or n < max(p, t) + 2:
+        n = rng.randint(max(p, t) + 2, max(p, t) + 2 + nmax)
     X = _randn(rng, n, p) @ _randn(rng, p, p)
+    xkind = rng.choice(["int64", "int32", "bool", "list", "fortran"]) if rng.random() < 0.2 else "float64"
+    X = values_for(X, xkind)
     q = max(p, t)
     Q = _orth(rng, q)
     fam = rng.choice(["rotation", "rotation", "rotation_noise", "noise"])
@@ -52,7 +87,7 @@ def _dataset(rng, p, t, nmax):
         Y = (np.pad(X, [(0, 0), (0, q - p)]) @ Q)[:, :t]
         if fam == "rotation_noise":
             Y = Y + 1e-3 * _randn(rng, n, t)
-    d = dict(family=fam, X=X.tolist(), Y=Y.tolist(), Q=Q.tolist(), y1d=False, bad=None,
+    d = dict(family=fam, X=X.tolist(), Y=Y.tolist(), Q=Q.tolist(), y1d=False, bad=None, xkind=xkind,
              Xnew=_randn(rng, 3, p).tolist())
     if t == 1 and rng.random() < 0.5:
         d["y1d"] = True
@@ -66,13 +101,22 @@ def gen_history(rng, quick):
     n_obj = 2 if rng.random() < 0.3 else 1
     objs = []
     for _ in range(n_obj):
-        objs.append(dict(projector=rng.random() < 0.7,
+        objs.append(dict(projector=rng.random() < 0.6,
                          est=(rng.randint(0, n_est - 1) if rng.random() < 0.75 else None)))
     p, t = _shape(rng, pmax)
+    q = max(p, t)
+    n_base = rng.randint(q + 2, q + 2 + (8 if quick else 16))
     data = []
     for _ in range(rng.randint(2, 4)):
-        pp, tt = (p, t) if rng.random() < 0.65 else _shape(rng, pmax)
-        d = _dataset(rng, pp, tt, 8 if quick else 16)
+        r = rng.random()
+        if r < 0.45:
+            pp, tt = p, t
+        elif r < 0.75:                       # other widths with the SAME padded size (work arrays of equal shape)
+            pp, tt = rng.choice([(q, rng.randint(1, q)), (rng.randint(1, q), q), (t, p)])
+        else:
+            pp, tt = _shape(rng, pmax)
+        # mostly the same samples count (feature subsets of one data set), sometimes another one
+        d = _dataset(rng, pp, tt, 8 if quick else 16, n=(n_base if rng.random() < 0.7 else None))
         if rng.random() < 0.12:
             bad = rng.choice(BAD_DATA)
             if bad == "y1d_multi":               # a 1-D target: accepted by projector mode, IndexError in padded mode
@@ -127,6 +171,8 @@ def _xy(d):
     Y = np.array(d["Y"], dtype=float)
     if d["bad"] == "x1d":
         X = X[:, 0]
+    elif d["bad"] is None and d.get("xkind", "float64") != "float64":
+        X = present(X, d["xkind"])
     y = Y[:, 0] if d["y1d"] else Y
     return X, y
 
@@ -172,7 +218,7 @@ def run_history(hist, make_estimator):
                         Xn = np.array(d["Xnew"], dtype=float)
                         pred = m.predict(Xn)
                         rec.update(pred=pred.reshape(len(Xn), -1).tolist(), pred_shape=list(np.shape(pred)),
-                                   pred_train=m.predict(X).reshape(len(X), -1).tolist())
+                                   pred_train=m.predict(X).reshape(len(d["X"]), -1).tolist())
                         if not m.use_orthogonal_projector:
                             rec["max_components"] = int(m.max_components_)
                     except Exception as e:  # noqa
@@ -309,7 +355,7 @@ def step_case(hist, k, cl):
     a = hist["ops"][k]
     d = hist["data"][a["d"]]
     b, hy, _ = cl[k][0][a["o"]]
-    return dict(family=d["family"], scale=1.0, X=d["X"], Y=d["Y"], Q=d["Q"], projector=b, y1d=bool(d["y1d"]),
+    return dict(family=d["family"], scale=1.0, xkind=d.get("xkind", "float64"), X=d["X"], Y=d["Y"], Q=d["Q"], projector=b, y1d=bool(d["y1d"]),
                 estimator=("default" if hy is None else hy), Xnew=d["Xnew"],
                 comp_seed=(hist["comp_seed"] + 7919 * k) % (10 ** 9))
 
